@@ -6,6 +6,7 @@ mod interpose;
 mod model;
 mod obs;
 mod props;
+mod refflow;
 mod run;
 mod scenario;
 mod shrink;
